@@ -83,6 +83,7 @@ fn run_scenario(sc: &Value, t: &mut Tracer) {
 	t.reset(json!({"kind": kind, "finite": finite, "len": len, "n": NF, "starved": starved, "src": sc["src"]}));
 	let mut held: Option<std::sync::Arc<DecStats>> = None;
 	let mut ntw = sc["e0"].as_u64().unwrap_or(0) as usize;
+	let start = sc["start"].as_u64().unwrap_or(0) as usize;
 	// a small frame ring (streams only): the decoder is never more than `ring` frames ahead, so a decoder thread that
 	// gives up too early is heard as silence within a few callbacks (0: the production size)
 	let ring = if kind == "stream" { sc["ring"].as_u64().unwrap_or(0) as usize } else { 0 };
@@ -101,7 +102,8 @@ fn run_scenario(sc: &Value, t: &mut Tracer) {
 	let _ = sim.callback(NF);
 	let mut h = match guarded(|| {
 		if kind == "static" {
-			let mut settings = StaticSoundSettings::new();
+			// start: frames from the beginning (at or beyond the end: a finite sound has nothing to play and must stop)
+			let mut settings = StaticSoundSettings::new().start_position(kira::sound::PlaybackPosition::Samples(start));
 			if !finite {
 				settings = settings.loop_region(..);
 			}
@@ -117,7 +119,7 @@ fn run_scenario(sc: &Value, t: &mut Tracer) {
 			let (dec, stats) = ScriptDecoder::new(len, vec![3, 1, 2], 0, 0);
 			// a starved stream: the decoder delivers `after` frames and then hangs in decode() until the session is over
 			let dec = if starved { dec.with_block_after(sc["after"].as_u64().unwrap_or(0) as usize) } else { dec };
-			let mut data = StreamingSoundData::from_decoder(dec);
+			let mut data = StreamingSoundData::from_decoder(dec).start_position(kira::sound::PlaybackPosition::Samples(start));
 			if !finite {
 				data = data.loop_region(..);
 			}
